@@ -346,6 +346,17 @@ def get_value_type_by_c_number(items: [Token]) -> ValueType:
     size = 32
     if postfix in c_64bit_postfix:
         size = 64
+
+    # The type of an integer constant is the first type of its list in which the value fits
+    # (ISO/IEC 9899:201x - 6.4.4.1). Here: int = 32bit, long and long long = 64bit.
+    # Only hexadecimal constants without an unsigned suffix can become unsigned.
+    is_hex = get_num_base_by_token(items[0]) == 16
+    if size == 32 and signed and is_hex and (1 << 31) <= val < (1 << 32):
+        signed = False
+    elif size == 32 and val >= (1 << (31 if signed else 32)):
+        size = 64
+    if size == 64 and signed and is_hex and val >= (1 << 63):
+        signed = False
     return ValueType(signed, size)
 
 
